@@ -33,7 +33,7 @@ FUNC_CHECKS = [
     ('Register', ['C12', 'C02']), ('Unregister', ['C12']), ('Lookup', ['C12', 'C02']), ('DictInsertionOrdered', ['C13']),
     ('GetKind', ['C02', 'C01']), ('GetType', ['C08']), ('IsLeaf', ['C08', 'C02']), ('GetPathEntryType', ['C04']),
     ('NamedTuple', ['C18', 'C02']), ('StructSequence', ['C18', 'C02']), ('TotalOrderSort', ['C18', 'C01']),
-    ('DictKeys', ['C01', 'C02']), ('tp_traverse', ['C14']), ('PyTpTraverse', ['C14']), ('tp_clear', ['C14']),
+    ('DictKeysEqual', ['C07', 'C05']), ('DictKeysDifference', ['C07']), ('AssertExact', ['C07', 'C05', 'C10']), ('SortedDictKeys', ['C07', 'C01']), ('DictKeys', ['C01', 'C02']), ('tp_traverse', ['C14']), ('PyTpTraverse', ['C14']), ('tp_clear', ['C14']),
 ]
 FILE_DEFAULT = {
     'flatten.cpp': ['C01', 'C03', 'C02'], 'unflatten.cpp': ['C01', 'C05'], 'treespec.cpp': ['C08', 'C09', 'C04'],
